@@ -99,7 +99,8 @@ func (def *sliceAsList) findByKey(m meta.Meta, target []val.Value, keyMeta []met
 			return notfound, empty, err
 		}
 		for i, v := range candidateKey {
-			if v == nil || v.Value() != target[i].Value() {
+			// not every key value is comparable with == (binary is a slice of bytes)
+			if v == nil || !val.Equal(v, target[i]) {
 				break
 			}
 			isLastKey := i == len(keyMeta)-1
